@@ -29,7 +29,8 @@ type mixOp struct {
 }
 
 var mixDefNames = []string{"rec-le-ts-first", "rec-be-ts-mid", "rec-le-no-ts", "unknown-msg", "lap-zero-fields", "rec-le-dev",
-	"activity-localtime", "rec-be-signed-unknownfield", "hrv-array", "monitoring-unhosted", "file_id", "event-be", "file_creator"}
+	"activity-localtime", "rec-be-signed-unknownfield", "hrv-array", "monitoring-unhosted", "file_id", "event-be", "file_creator", "rec-le-narrow-coords",
+	"unknown-msg-dev", "course_point-own-ts", "activity-localtime-first"}
 
 func (o mixOp) String() string {
 	switch o.Kind {
@@ -70,10 +71,24 @@ func mixDef(k int, local byte) fitmodel.Def {
 		return fitmodel.Def{Local: local, Global: 0, Fields: []fitmodel.FieldDef{F(0, 1, fitmodel.Enum), F(1, 2, fitmodel.Uint16)}}
 	case 11:
 		return fitmodel.Def{Local: local, Big: true, Global: 21, Fields: []fitmodel.FieldDef{F(253, 4, fitmodel.Uint32), F(0, 1, fitmodel.Enum), F(1, 1, fitmodel.Enum)}}
+	case 13: // little-endian, coordinates narrower than the profile type (widening depends on the byte order)
+		return fitmodel.Def{Local: local, Global: 20, Fields: []fitmodel.FieldDef{F(0, 2, fitmodel.Sint16), F(3, 1, fitmodel.Uint8), F(1, 1, fitmodel.Sint8)}}
+	case 14: // a message outside the profile that carries developer data
+		return fitmodel.Def{Local: local, Global: 0xFF00, Fields: []fitmodel.FieldDef{F(1, 2, fitmodel.Uint16)}, DevFlag: true, Dev: []fitmodel.DevDef{{Num: 0, Size: 3, Idx: 0}}}
+	case 15: // a message whose time field is an ordinary field (number 1), not the common field 253
+		return fitmodel.Def{Local: local, Global: 32, Fields: []fitmodel.FieldDef{F(1, 4, fitmodel.Uint32), F(5, 1, fitmodel.Enum), F(254, 2, fitmodel.Uint16)}}
+	case 16: // the local time precedes the message's own timestamp: it is resolved against the previous reference
+		return fitmodel.Def{Local: local, Big: true, Global: 34, Fields: []fitmodel.FieldDef{F(5, 4, fitmodel.Uint32), F(253, 4, fitmodel.Uint32), F(1, 2, fitmodel.Uint16)}}
 	case 12: // a message kept at File level, not in the container
 		return fitmodel.Def{Local: local, Global: 49, Fields: []fitmodel.FieldDef{F(0, 2, fitmodel.Uint16), F(1, 1, fitmodel.Uint8)}}
 	}
 	panic("mixDef")
+}
+
+// mixTS: the timestamp at a position — three coarse steps 50 s apart that go forwards and backwards, plus a few
+// seconds, so that neighbouring messages' times differ by seconds as well as by minutes.
+func mixTS(pos int) int {
+	return 1000000000 + ((pos*37)%11/4)*50 + (pos%5)*3
 }
 
 // mixPayload: values depend on the position in the word, so that no two records carry the same content and the
@@ -90,12 +105,14 @@ func mixPayload(d fitmodel.Def, pos int) []byte {
 			case f.Num == 253 && pos%5 == 3:
 				v = uint64(0x0FFFFFF0 + pos) // a reference below the system-time marker
 			case f.Num == 253:
-				v = uint64(1000000000 + ((pos*37)%11)*50)
+				v = uint64(mixTS(pos))
 			case d.Global == 0 && f.Num == 0:
 				v = 4
+			case d.Global == 32 && f.Num == 1:
+				v = uint64(1000000000 + ((pos*41)%13)*50)
 			case d.Global == 34 && f.Num == 5:
 				// local time: whole hours, and offsets that are not whole minutes
-				v = uint64(1000000000 + ((pos*37)%11)*50 + 3600*(pos%3) + 13*(pos%2))
+				v = uint64(mixTS(pos) + 3600*(pos%3) + 13*(pos%2))
 			case fitmodel.BaseSigned(f.Base) && pos%2 == 1:
 				v = uint64(int64(-(pos*7 + j + 2))) // two's complement, truncated by PutUint
 			default:
@@ -299,14 +316,8 @@ func mixWordString(ops []mixOp) string {
 func mixFamily(w *vx.W, maxLen int) {
 	alpha := mixAlphabet()
 	ops := make([]mixOp, 0, 12)
-	seqWords(len(alpha), maxLen, w.Mine, func(word []int) bool {
-		if len(word) >= 4 && w.Expired("mix-words") {
-			return false
-		}
-		ops = ops[:0]
-		for _, a := range word {
-			ops = append(ops, alpha[a])
-		}
+	var word []int
+	body := func() bool {
 		for probe := 0; probe < 2; probe++ {
 			stream, full, ok := mixStream(ops, probe == 1)
 			if !ok {
@@ -332,7 +343,7 @@ func mixFamily(w *vx.W, maxLen int) {
 				}
 			}
 			// twins (shorter words): the other byte order for every definition, and the other two header forms
-			if probe == 1 && len(word) < maxLen {
+			if probe == 1 && (len(word) < maxLen || (maxLen < 4 && len(word) == 4)) {
 				base := ""
 				for _, v := range []mixVariant{{}, {Flip: true}, {Hdr: 1}, {Flip: true, Hdr: 2}} {
 					st, _, _ := mixStreamV(ops, true, v)
@@ -357,11 +368,44 @@ func mixFamily(w *vx.W, maxLen int) {
 			}
 		}
 		return true
+	}
+	seqWords(len(alpha), maxLen, w.Mine, func(wd []int) bool {
+		if len(wd) >= 4 && w.Expired("mix-words") {
+			return false
+		}
+		word = wd
+		ops = ops[:0]
+		for _, a := range wd {
+			ops = append(ops, alpha[a])
+		}
+		return body()
 	})
+	if maxLen >= 4 {
+		return
+	}
+	// redefinition pairs (length-4 words the quick bound does not reach): a local type defined, used, redefined with
+	// every other shape and used again, under each pair of record kinds — what a decoder keeps per local type (a
+	// cached message, a cached field position, a cached byte order) must not outlive the redefinition
+	var idx int64
+	word = make([]int, 4)
+	for a := range mixDefNames {
+		for b := range mixDefNames {
+			for k1 := 1; k1 <= 3; k1++ {
+				for k2 := 1; k2 <= 3; k2++ {
+					idx++
+					if !w.Mine(idx) {
+						continue
+					}
+					ops = append(ops[:0], mixOp{Kind: 0, Local: 1, Def: a}, mixOp{Kind: k1, Local: 1}, mixOp{Kind: 0, Local: 1, Def: b}, mixOp{Kind: k2, Local: 1})
+					body()
+				}
+			}
+		}
+	}
 }
 
 func init() {
-	const t = " Shared mix family: all words up to length 3 (quick) / 4 (thorough) over {define(l, one of 13 shapes), data(l), compressed data(l) with a position-dependent time offset, compressed data(l) whose offset carries the other local type in its low nibble} for two local types — both byte orders, timestamp first / in the middle / absent, zero-field and developer-field definitions, an unknown message, unknown fields in a known message, signed, array and local-time fields, a message the file type does not host, a second file_id — each word also followed by a probe of every defined local type; the decoded File is compared message by message and field by field with a complete reference decoder (independent parser + value model + timestamp machine + reflection-derived router). Words shorter than the bound are also decoded in their twin forms (every definition in the other byte order; 12-byte header; 14-byte header with a zero CRC): same content as the original, and each judged by the reference decoder; every probed word once more with all decode options and a logger that formats its arguments."
+	const t = " Shared mix family: all words up to length 3 (quick) / 4 (thorough) over {define(l, one of 17 shapes), data(l), compressed data(l) with a position-dependent time offset, compressed data(l) whose offset carries the other local type in its low nibble} for two local types — both byte orders, timestamp first / in the middle / absent, zero-field and developer-field definitions, an unknown message, unknown fields in a known message, signed, array and local-time fields, a message the file type does not host, a second file_id, an unknown message with developer data, a message whose time field is not field 253, a local time that precedes its message's timestamp — each word also followed by a probe of every defined local type; the decoded File is compared message by message and field by field with a complete reference decoder (independent parser + value model + timestamp machine + reflection-derived router). Words shorter than the bound are also decoded in their twin forms (every definition in the other byte order; 12-byte header; 14-byte header with a zero CRC): same content as the original, and each judged by the reference decoder; every probed word once more with all decode options and a logger that formats its arguments. Quick tier also: all redefinition pairs define(l,a) x(l) define(l,b) y(l) over the 17x17 shapes and the 3x3 record kinds, with probes and twins."
 	for _, id := range []string{"C02", "C03", "C12", "C13"} {
 		vx.AppendRule(id, t)
 	}
